@@ -509,6 +509,21 @@ func c10Directed() []C10Case {
 		"f[ids][3]=1", "f[ids][12]=1&f[ids][0]=2", "f[ids][]=1", "f[ids][][]=1", "f[ids]=1&f[ids][0]=2", "f[a][b][c]=1", "f[a]=1", "f[a][b]=x&f[a][b][0]=y", "f[v][0]=1", "f[v][0][v][0]=1",
 		"f[=1", "f]=1", "f[]=1", "f[[ids]]=1", "f[ids][0=1", "f[ids]0]=1", "f[ids][0]]=1", "f=1", "f", "f[ids][0]", "f[ids][0]=1&f[ids][0]=2"}
 	var out []C10Case
+	// parameters described by content, whose schema is not an array, given more than once
+	{
+		cp := func(name string, sch map[string]any) map[string]any {
+			return jobj("name", name, "in", "query", "content", jobj("application/json", jobj("schema", sch)))
+		}
+		doc2 := jobj("openapi", "3.0.3", "info", jobj("title", "t", "version", "1"), "paths", jobj(
+			"/c", jobj("get", jobj("parameters", []any{cp("tag", jobj("type", "string")), cp("obj", jobj("type", "object")), cp("any", jobj()),
+				cp("arr", jobj("type", "array", "items", jobj("type", "integer")))}, "responses", resp))))
+		var reqs []C10Req
+		for _, q := range []string{"tag=a&tag=b", `tag=%22a%22&tag=%22b%22`, `obj=%7B%22a%22%3A1%7D&obj=%7B%22a%22%3A2%7D`, "obj=1&obj=2", "any=1&any=2", "any=&any=", "arr=1&arr=2", "arr=%5B1%5D&arr=%5B2%5D",
+			"tag=&tag=", "tag", "tag&tag", "obj=%7B&obj=%7D"} {
+			reqs = append(reqs, C10Req{Method: "GET", Target: "/c?" + q, Status: 200, Multi: len(reqs)%2 == 1})
+		}
+		out = append(out, C10Case{Doc: doc2, Reqs: reqs})
+	}
 	for _, path := range []string{"/plain", "/closed", "/open"} {
 		var reqs []C10Req
 		for _, q := range shapes {
